@@ -1,6 +1,7 @@
 package fam
 
 import (
+	"crypto/x509"
 	"bytes"
 	"crypto/cipher"
 	"crypto/des"
@@ -112,6 +113,32 @@ var (
 	spExpOnce sync.Once
 	spExp     *idp.KeyPair
 )
+
+var (
+	spWallOnce sync.Once
+	spWall     *idp.KeyPair
+)
+
+var (
+	idpEternalOnce sync.Once
+	idpEternal     *idp.KeyPair
+)
+
+// idpEternalCert: the IdP key under a certificate valid from Go's zero time to the year 9999.
+func idpEternalCert() *idp.KeyPair {
+	idpEternalOnce.Do(func() {
+		idpEternal = idp.Cert(world.Get().IdpA.Key, "idp-eternal", time.Time{}, time.Date(9999, 12, 31, 0, 0, 0, 0, time.UTC))
+	})
+	return idpEternal
+}
+
+// spWallClockCert: the SP key under a certificate valid from an hour before to an hour after the wall clock.
+func spWallClockCert() *idp.KeyPair {
+	spWallOnce.Do(func() {
+		spWall = idp.Cert(idp.RSAKey("sp"), "sp-wallclock", time.Now().Add(-time.Hour), time.Now().Add(time.Hour))
+	})
+	return spWall
+}
 
 // spExpiredCert: another SP key whose certificate expired before T0.
 func spExpiredCert() *idp.KeyPair {
@@ -249,6 +276,12 @@ func (Xmlenc) Run(c *orch.Case) *orch.Outcome {
 		orch.Fatal("xmlenc: bad case")
 	}
 	w := world.Get()
+	if cfg.Now == 99 {
+		// at a clock that reads year 1 the IdP's certificate must be valid too, or nothing gets as far as decryption
+		w2 := *w
+		w2.IdpA = idpEternalCert()
+		w = &w2
+	}
 	rng := mrand.New(mrand.NewSource(c.Seed))
 	lay := layoutFor(rng, true)
 	b := idp.NewBuilder(lay, c.Seed+1)
@@ -257,6 +290,9 @@ func (Xmlenc) Run(c *orch.Case) *orch.Outcome {
 	spKP := w.SP
 	if in.Sub == "bind" {
 		spKP = spWindowCert()
+		if cfg.Now == 99 {
+			spKP = spWallClockCert() // see below: the provider's clock reads Go's zero time
+		}
 	}
 	if in.Keycfg == "rotating" {
 		spKP = spExpiredCert() // the sender encrypts to the certificate the store still serves first
@@ -376,6 +412,12 @@ func (Xmlenc) Run(c *orch.Case) *orch.Outcome {
 	// through the SP
 	sp := w.NewSP()
 	sp.Clock = dsig.NewFakeClockAt(world.T0.Add(time.Duration(cfg.Now) * 500 * time.Millisecond))
+	if cfg.Now == 99 {
+		sp.IDPCertificateStore = &dsig.MemoryX509CertificateStore{Roots: []*x509.Certificate{w.IdpA.Cert}}
+		// clock position 99: the provider's clock reads time.Time{} (year 1), and the SP certificate is valid around the
+		// machine's wall clock -- a library that falls back to the wall clock for a zero reading would find it valid
+		sp.Clock = dsig.NewFakeClockAt(time.Time{})
+	}
 	sp.ValidateEncryptionCert = in.Validate
 	certBytes := spKP.DER
 	switch in.Certform {
